@@ -125,3 +125,28 @@ Proof.
   rewrite Ed in H. inversion H; subst; cbn; auto.
 Qed.
 
+
+(* zero (an absent or all-zero sequence number) is never accepted: every accepted number is above a stored value, and
+   those are at least 0 *)
+Definition PosAcc (s : st) : Prop := forall a q, In (a, q) (accepted s) -> 0 < q.
+Lemma step_posacc s x s' : PosAcc s -> step s x = Some s' -> PosAcc s'.
+Proof.
+  intros P H. destruct x as [i b seq|i|i]; cbn [step] in H.
+  - destruct (find_thr i (threads s)); [discriminate|]. inversion H; subst. exact P.
+  - destruct (find_thr i (threads s)) as [t|]; [|discriminate].
+    destruct (t_phase t); [|discriminate].
+    destruct (decode (t_seq t)) as [q|]; [|inversion H; subst; exact P].
+    destruct (q <=? nonce_of (t_author t) (store s)); inversion H; subst; exact P.
+  - destruct (find_thr i (threads s)) as [t|]; [|discriminate].
+    destruct (t_phase t); [discriminate|].
+    destruct (decode (t_seq t)) as [q|]; [|discriminate].
+    destruct (N.leb_spec q (nonce_of (t_author t) (store s))) as [Hle|Hlt];
+      inversion H; subst; clear H; [exact P|].
+    intros a q' [E|Hin]; [inversion E; subst; lia|exact (P a q' Hin)].
+Qed.
+Theorem zero_never_accepted l : forall s s', PosAcc s -> run s l = Some s' -> PosAcc s'.
+Proof.
+  induction l as [|x l IH]; cbn [run]; intros s s' P H.
+  - inversion H; subst; exact P.
+  - destruct (step s x) as [s1|] eqn:E; [|discriminate]. eapply IH; [|exact H]. eapply step_posacc; eassumption.
+Qed.
